@@ -115,6 +115,7 @@ class SimNet:
         self.queue: list = []
         self.trace: list = []      # events of the current op: (src idx, dst, data, outcome string)
         self.current: Host | None = None
+        self.lose = None           # optional predicate (host, dst, data) -> bool: the packet is lost
         self.log: list = []        # the whole run
 
     def add_host(self, lan, wan, box, typ) -> Host:
@@ -159,6 +160,11 @@ class SimNet:
         while self.queue and n < limit:
             n += 1
             h, d, data = self.queue.pop(0)
+            if self.lose is not None and self.lose(h, d, data):
+                ev = (h.idx, d, data, "drop:lost")      # scripted loss / delay beyond the horizon of the scenario
+                self.trace.append(ev)
+                self.log.append(ev)
+                continue
             out, g, seen = self.route(h, d)
             ev = (h.idx, d, data, out)
             self.trace.append(ev)
@@ -391,7 +397,7 @@ REQUIRED_BRANCHES = [
     "net:drop:unroutable",
     "msg:req0", "msg:req1", "msg:resp0", "msg:resp1", "msg:preq0", "msg:preq1", "msg:punc0", "msg:punc1",
     "op:remap", "op:roam", "op:remove-peer", "op:restart", "op:ask", "op:walk-walkable", "op:walk-junk", "op:set-age",
-    "op:blacklist", "op:walk-self", "class:tracker", "class:peer-limit", "class:strategy", "strategy:steps", "class:odd-lan",
+    "op:blacklist", "op:walk-self", "class:tracker", "class:peer-limit", "class:strategy", "strategy:steps", "class:odd-lan", "class:discovery-restart",
 ]
 
 
@@ -489,6 +495,7 @@ class World:
         self.expect: list[str | None] = ["ok"]
         self.kinds: dict[str, int] = {}
         self.raised: dict[str, int] = {}
+        self.overlay_classes = None     # None = the two IntroCommunity overlays; else the classes every new host runs
 
     # --- construction ---------------------------------------------------------------------------------------------
     def add_host(self, lan, wan, box, typ) -> int:
@@ -501,7 +508,8 @@ class World:
         self.net.current = h
         try:
             me, nw = Peer(key), Network()
-            h.nodes = [c(CommunitySettings(my_peer=me, endpoint=h.ep, network=nw)) for c in self.e["cls"]]
+            h.cls_list = list(self.overlay_classes or self.e["cls"])
+            h.nodes = [c(CommunitySettings(my_peer=me, endpoint=h.ep, network=nw)) for c in h.cls_list]
             h.node = h.nodes[0]
         finally:
             self.net.current = None
@@ -676,7 +684,7 @@ class World:
         try:
             me, nw = Peer(self.e["keys"][i]), Network()
             nw.load_snapshot(snap)
-            h.nodes = [c(CommunitySettings(my_peer=me, endpoint=h.ep, network=nw)) for c in self.e["cls"]]
+            h.nodes = [c(CommunitySettings(my_peer=me, endpoint=h.ep, network=nw)) for c in getattr(h, "cls_list", self.e["cls"])]
             h.node = h.nodes[0]
         finally:
             self.net.current = None
@@ -759,7 +767,8 @@ def canon(reply: str, expected: str) -> str:
 
 
 # ---------------------------------------------------------------------------------------------------------------------
-ODD_LAN_NETS = ["100.64.0", "100.127.255", "100.100.7", "198.18.5", "25.11.12", "172.32.0", "192.169.1", "11.0.0"]
+# /24s outside 10/8, 172.16/12, 192.168/16 used as LAN numbering (none of them contains an address of EDGE_PUBLIC)
+ODD_LAN_NETS = ["100.64.1", "100.127.255", "100.100.7", "198.18.5", "25.11.12", "172.33.4", "192.169.1", "11.1.2"]
 LAN_NETS = ["192.168.0", "192.168.1", "192.168.1", "192.168.255", "10.0.0", "10.255.255", "10.77.3", "172.16.0", "172.31.255",
             "172.20.10"]
 EDGE_PUBLIC = ["172.32.0.1", "172.15.255.254", "192.169.0.1", "192.167.255.254", "11.0.0.1", "9.255.255.254", "172.48.1.1",
@@ -1419,6 +1428,58 @@ def random_history(ctx: Ctx, seed: int, use_model: bool, batch: list):
         w.close()
 
 
+def discovery_restart_case(ctx: Ctx, cfg: dict):
+    """IMPLEMENTATION-ONLY class (no model): all three nodes run the stock DiscoveryCommunity, whose subclass override of
+    the old-style request handler replaces lazy_wrapper.  The introduced peer restarts behind a renewed NAT mapping
+    (same key, fresh Network) and re-bootstraps with an old-style request; its follow-up similarity request — the first
+    lazy_wrapper-handled packet from the new mapping — is lost.  Then the scripted introduction and the usual oracle."""
+    import random as _random
+    from ipv8.peerdiscovery.community import DiscoveryCommunity
+    from ipv8.peerdiscovery.payload import SimilarityRequestPayload
+    rng = _random.Random(cfg["seed"])
+    w = World()
+    try:
+        w.overlay_classes = [DiscoveryCommunity]
+        logging.getLogger("DiscoveryCommunity").addHandler(w.e["catch"])
+        logging.getLogger("DiscoveryCommunity").propagate = False
+        lay = Layout(rng, cfg["ports"], cfg["same_port"])
+        pl = cfg["placement"]
+        I = w.add_host(*lay.public_host(), "none")
+        R = w.add_host(*(lay.public_host() if pl in ("public", "rPub") else lay.boxed_host(lay.new_box())), cfg["tR"])
+        P = w.add_host(*lay.boxed_host(lay.new_box()), cfg["tP"])
+        hosts = w.net.hosts
+        for h in hosts:
+            w.set_pref(h.idx, [k for k in range(3) if k != h.idx])
+        w.set_pref(I, [P, R])
+        iaddr = hosts[I].wan
+        w.walk(P, iaddr, 0)                                   # first session of the introduced peer
+        w.remap(P, *new_mapping(lay, w, P, False))            # it restarts: new socket -> new mapping, fresh Network
+        w.restart(P)
+        w.net.lose = lambda h, d, data: h.idx == P and len(data) > 22 and data[22] == SimilarityRequestPayload.msg_id
+        w.walk(P, iaddr, 0)                                   # re-bootstrap; the similarity request that follows is lost
+        ev1 = w.walk(R, iaddr, 0)
+        named = set()
+        for src, _d, data, out in ev1:
+            if src == I and out.endswith(f":{R}"):
+                d = w.describe(data)
+                if d.startswith("resp"):
+                    f = dict(t.split("=") for t in d.split()[1:])
+                    named |= {f["li"], f["wi"], f"{ip2int(hosts[R].lan[0])}:{f['wi'].split(':')[1]}"}
+        handed = [a for a, _ in w.walkable(R, 0) if sa(a) in named]
+        ev2 = []
+        for a in handed:
+            ev2 += w.walk(R, a, 0)
+        ev1 = [e for e in ev1 if e[2][22] in (246, 245, 250, 249, 234, 233, 232, 231)]
+        ev2 = [e for e in ev2 if e[2][22] in (246, 245, 250, 249, 234, 233, 232, 231)]
+        ctx.count("class:discovery-restart")
+        check_scripted(ctx, w, dict(cfg, klass="discovery-restart", history="normal", ncand=1), R, P, I, ev1, ev2, handed, 0,
+                       None, {"kind": "discovery-restart", "cfg": cfg})
+        ctx.case(("discovery-restart", tuple(sorted(cfg.items()))), True)
+    finally:
+        w.net.lose = None
+        w.close()
+
+
 def lan_table_check(ctx: Ctx, use_model: bool, batch: list):
     """address_in_lan_subnets on boundary and random addresses: implementation vs RFC 1918 (oracle) vs model"""
     env = World.env()
@@ -1524,6 +1585,12 @@ def run(ctx: Ctx):
             scripted(ctx, cfg, use_model, batch)
             if len(batch) >= 200:
                 flush(ctx, batch)
+    # implementation-only: the stock DiscoveryCommunity (subclass override of the request handler), restart + loss
+    for tR in TYPES:
+        for tP in TYPES:
+            for pl in ("diff", "rPub"):
+                discovery_restart_case(ctx, {"tR": tR, "tP": tP, "placement": pl, "style": "old", "ports": "remap",
+                                             "same_port": ctx.rng.random() < 0.5, "seed": ctx.rng.randrange(1 << 30)})
     if ctx.thorough():
         # exhaustive small scope: every configuration x every candidate count x port policy x history
         for hist in HISTORIES:
@@ -1600,6 +1667,11 @@ def replay(ctx: Ctx, rec: dict):
         if got != want:
             ctx.oracle_fail("replay", "replayed input still fails", r)
         ctx.case(("replay",), True)
+        return
+    if r.get("kind") == "discovery-restart":
+        discovery_restart_case(ctx, r["cfg"])
+        print("replay of discovery-restart", r["cfg"], ": property",
+              "FAILS: " + "; ".join(f["what"] for f in ctx.failures[:4]) if ctx.failures else "holds")
         return
     if r.get("kind") == "random":
         random_history(ctx, r["seed"], False, [])
